@@ -83,7 +83,7 @@ pub fn generate(rng: &mut Rng, reg: &Registry) -> Stmt {
         all.extend(reg.concepts.iter().cloned());
         if all.is_empty() || rng.chance(1, 12) { "C-999".to_string() } else { all[rng.usize(all.len())].clone() }
     };
-    let (family, text) = match rng.weighted(&[14, 10, 22, 10, 8, 8, 8, 5, 6, 5]) {
+    let (family, text) = match rng.weighted(&[14, 10, 22, 10, 8, 8, 8, 5, 6, 5, 3]) {
         0 => {
             let bad = rng.chance(1, 8);
             ("create-concept", concept_clause(rng, "x", bad))
@@ -116,6 +116,10 @@ pub fn generate(rng: &mut Rng, reg: &Registry) -> Stmt {
                 // forward reference: the assertion is written before the proposition it names
                 clauses.swap(2, 3);
             }
+            if rng.chance(1, 6) {
+                // the same new tuple ensured twice in one block: one element, or a clean refusal
+                clauses.push("ENSURE PROPOSITION ?p2 (?s, \"prefers\", ?o)".to_string());
+            }
             if rng.chance(2, 5) {
                 let bad = match rng.below(4) {
                     0 => concept_clause(rng, "bad", true),
@@ -132,6 +136,12 @@ pub fn generate(rng: &mut Rng, reg: &Registry) -> Stmt {
                     _ => clauses.len(),
                 };
                 clauses.insert(pos, bad);
+            }
+            if rng.chance(1, 5) {
+                // physical erasure planned inside a block that may still be refused
+                let victim = any_concept(rng);
+                let pos = if rng.bool() { 0 } else { rng.usize(clauses.len() + 1) };
+                clauses.insert(pos, format!("PURGE \"{victim}\" REFERENCE POLICY \"tombstone_reference\" CONFIRM \"PURGE\""));
             }
             ("mutate-block", format!("MUTATE {{\n  {}\n}}", clauses.join("\n  ")))
         }
@@ -180,10 +190,24 @@ pub fn generate(rng: &mut Rng, reg: &Registry) -> Stmt {
             let (pp, bp) = (bind("p", &p), bind("by", &by));
             ("supersede", format!("MUTATE {{\n  {}\n  SUPERSEDE ASSERTION \"{old}\" BY ?n\n}}", assertion_clause("n", &pp, &bp, rng)))
         }
-        _ => {
+        9 => {
             let a = any_concept(rng);
             let b = any_concept(rng);
             ("merge", format!("MERGE CONCEPT \"{a}\" INTO \"{b}\""))
+        }
+        _ => {
+            // physical erasure, alone or followed by a clause that fails
+            let victim = any_concept(rng);
+            let policy = if rng.bool() { " REFERENCE POLICY \"tombstone_reference\"" } else { "" };
+            let purge = format!("PURGE \"{victim}\"{policy} CONFIRM \"PURGE\"");
+            match rng.below(3) {
+                0 => ("purge", purge),
+                1 => {
+                    let other = any_concept(rng);
+                    ("purge-then-refused", format!("MUTATE {{\n  {purge}\n  UPDATE \"{other}\" EXPECT VERSION 99 SET FIELDS {{ name: \"never\" }}\n}}"))
+                }
+                _ => ("purge-then-conflict", format!("MUTATE {{\n  {purge}\n  CREATE CONCEPT ?d1 {{ TYPE \"Person\" NAME \"Dup\" SET FIELDS {{key: \"k:dup\"}} }}\n  CREATE CONCEPT ?d2 {{ TYPE \"Person\" NAME \"Dup2\" SET FIELDS {{key: \"k:dup\"}} }}\n}}")),
+            }
         }
     };
     Stmt { text, params: Json::Object(params), dry_run, family: family.to_string() }
